@@ -51,6 +51,9 @@ NOTES.update({
  "w13-C18-m1": "missed at first: the ALLOWED_EAN_EXTENSIONS list in the shared hints map was ascending, so sorting it in place wrote nothing; the list is now in a user's order (5, 0, 2); caught by the race oracle",
 })
 NOTES.update({
+ "w14-C17-m1": "NOT decided: the statement does not fix how a 16-bit grey level is rounded to 8 bits (the unchanged generic path takes floor(Y*255/65535), the change takes Y>>8; they differ by at most 1 and both are usual); the check's 16-bit images carry the values v*257, on which every rounding agrees, so it does not demand one of them - same reason as w13-C17-m2",
+})
+NOTES.update({
  "w6-C16-m1": "NOT caught: it needs a ragged bool map whose later row is longer than the first; ragged input is outside 'in-range arguments' (the unchanged tree panics on a ragged map whose later row is shorter)",
  "w6-C17-m1": "missed at first: after a NotFound the matrix was not asked for again; added",
  "w6-C17-m2": "missed at first: BinaryBitmap.Crop was only given valid rectangles; same-size shifted, negative-origin and outside rectangles added",
